@@ -243,7 +243,7 @@ Proof.
         - skipb. useb (su_number sq0). intros v q4 Hv. apply spec_ret. exact Hv. }
       destruct (N.eqb b 45); [useb (su_number q0); intros v q1 Hv; apply spec_ret; exact Hv|].
       destruct (N.eqb b 36 && negb ol); [skipb; useb (su_identifier sq); intros id q2 Hid; apply spec_ret; exact Hid|].
-      destruct (is_ascii_alphabetic b).
+      destruct (is_ascii_alphabetic b && negb ol).
       { skipb. useb (su_identifier_unchecked sq). intros id q2 Hid. useb (IH8 q2). intros args q3 Hargs. destruct args as [args|].
         - destruct (negb (is_callee id)); [exact Logic.I | apply spec_ret; cbn [utf8_inline]; unfold UV in Hid; rewrite Hid; exact Hargs].
         - useb (su_accessor q3). intros att q4 Hatt. apply spec_ret. cbn [utf8_inline]. unfold UV in Hid. rewrite Hid, Hatt. reflexivity. }
